@@ -305,7 +305,7 @@ func runC12(r *Report) {
 	r.Analysed["map_ranges_unreachable_skipped"] = skipped
 	r.Analysed["template_defines"] = len(s.Tmpl.Defines)
 	r.FloorMin("reachable functions", nReach, 300)
-	r.FloorMin("map-range sites reachable from Generate", nRange, 5)
+	r.FloorMin("map-range sites reachable from Generate", nRange, 3)
 	r.FloorMin("template entry methods", len(s.TmplEnt), 60)
 	r.Analysed["template_funcmap_functions"] = s.NFuncMap
 	r.FloorMin("functions registered in the template FuncMap", s.NFuncMap, 8)
